@@ -6,6 +6,7 @@ import (
 	"fmt"
 	"os"
 	"runtime/debug"
+	"sort"
 	"sync"
 	"sync/atomic"
 	"time"
@@ -27,6 +28,7 @@ type WorkerMsg struct {
 	OrigLen int      `json:"orig_len,omitempty"`
 
 	Stats *StatsMsg `json:"stats,omitempty"`
+	Dig   string    `json:"dig,omitempty"`
 }
 
 type StatsMsg struct {
@@ -63,6 +65,8 @@ type WorkerArgs struct {
 	ReplayAux  []int64
 	Replay     bool
 	MaxRuns    int64
+	// Digest makes the worker print one behaviour digest per run (determinism self-test).
+	Digest bool
 }
 
 var outMu sync.Mutex
@@ -165,6 +169,11 @@ func WorkerMain(e Engine, a *WorkerArgs) int {
 		seed := RunSeed(a.Seed, a.Property+"/"+a.Sub, i)
 		t := NewTape(seed)
 		st.Events = st.Events[:0]
+		st.Dig, st.Uncontrolled = 0, false
+		var prev *digestSnap
+		if a.Digest {
+			prev = snapDigest(st)
+		}
 		atomic.StoreUint64(&curSeed, seed)
 		atomic.StoreInt64(&curRun, i)
 		if a.AnnounceRuns {
@@ -174,6 +183,9 @@ func WorkerMain(e Engine, a *WorkerArgs) int {
 		v, crash := SafeRun(e, t, cfg, st)
 		atomic.StoreInt64(&curStart, 0)
 		st.Runs++
+		if a.Digest {
+			emit(&WorkerMsg{Type: "digest", Run: i, Seed: seed, Dig: runDigest(st, prev, v)})
+		}
 		if crash != "" {
 			emit(&WorkerMsg{Type: "crash", Run: i, Seed: seed, Detail: crash, Tape: t.Draws()})
 			return 2
@@ -210,4 +222,52 @@ func statsMsg(st *Stats, start time.Time, race bool) *StatsMsg {
 	}
 	return &StatsMsg{Runs: st.Runs, Evals: st.Evals, Steps: st.Steps, Discarded: st.Discarded, Faults: st.Faults, Probes: st.Probes,
 		Distinct: keys, DistinctW: st.DistinctWeights(keys), Samples: st.Samples, WallS: time.Since(start).Seconds(), Race: race}
+}
+
+// runDigest summarises everything observable about one run: the engine's explicit
+// digest, the counter deltas and the event log. Two executions of the same seed
+// must print identical digest lines.
+func runDigest(st *Stats, prev *digestSnap, v *Violation) string {
+	if st.Uncontrolled {
+		return "uncontrolled (a select had several buffer-ready cases; Go's choice is not simulated)"
+	}
+	h := NewHash().Int(int(st.Dig)).Int(int(st.Evals - prev.evals)).Int(int(st.Steps - prev.steps)).Int(int(st.Discarded - prev.discarded))
+	for mi, m := range []map[string]int64{st.Faults, st.Probes} {
+		keys := make([]string, 0, len(m))
+		for k := range m {
+			keys = append(keys, k)
+		}
+		sort.Strings(keys)
+		for _, k := range keys {
+			if k == "goroutines_left_alive" {
+				continue
+			}
+			if d := m[k] - prev.maps[mi][k]; d != 0 {
+				h = h.Str(k).Int(int(d))
+			}
+		}
+	}
+	for _, e := range st.Events {
+		h = h.Str(e)
+	}
+	if v != nil {
+		h = h.Str(v.Class)
+	}
+	return fmt.Sprintf("%016x evals=%d steps=%d", uint64(h), st.Evals-prev.evals, st.Steps-prev.steps)
+}
+
+type digestSnap struct {
+	evals, steps, discarded int64
+	maps                    [2]map[string]int64
+}
+
+func snapDigest(st *Stats) *digestSnap {
+	d := &digestSnap{evals: st.Evals, steps: st.Steps, discarded: st.Discarded}
+	for i, m := range []map[string]int64{st.Faults, st.Probes} {
+		d.maps[i] = make(map[string]int64, len(m))
+		for k, v := range m {
+			d.maps[i][k] = v
+		}
+	}
+	return d
 }
